@@ -71,4 +71,15 @@ var _ = Service("svc", func() {
 		Payload(Named)
 		HTTP(func() { POST("/rc") })
 	})
+	// Reference to a type with a required attribute; the payload re-declares it
+	// and requires only another attribute of its own
+	Method("inh", func() {
+		Payload(func() {
+			Reference(Ref)
+			Attribute("a")
+			Attribute("nick", String)
+			Required("nick")
+		})
+		HTTP(func() { POST("/inh") })
+	})
 })
